@@ -21,7 +21,10 @@ Definition bad_hash (r : oresult) : bool := match r with XBadHash => true | _ =>
 
 Record ostep := mkstep {
   s_op : op; s_res : oresult; s_state : mgr; s_rx : list (addr * option N);
-  s_bc : list broadcast; s_sp : list spawn
+  s_bc : list broadcast; s_sp : list spawn;
+  (* every connection task spawned in this step was configured with the session's own id, the candidate's peer id, the
+     torrent's info hash and its piece count (compared by the harness against what it put into the scenario) *)
+  s_args_ok : bool
 }.
 Inductive case := CMgr (prod : bool) (init : mgr) (steps : list ostep).
 
@@ -89,13 +92,12 @@ Definition pick_of_r (prev next : mgr) (c : cmd) (res : oresult) : option N :=
   | _ => None
   end.
 
-(* spawned peer handlers are observed as new keys of the peer map and, by number, in the spawn log *)
+(* spawned peer handlers are observed as new keys of the peer map and, with their addresses and in order, in the spawn log *)
 Definition no_peer_spawns (sp : list spawn) : list spawn :=
   filter (fun s => match s with SpPeer _ => false | _ => true end) sp.
 Definition peer_spawns (sp : list spawn) : N :=
   len (filter (fun s => match s with SpPeer _ => true | _ => false end) sp).
-Definition spawns_agree (model observed : list spawn) : bool :=
-  list_eqb sp_eqb (no_peer_spawns model) (no_peer_spawns observed) && (peer_spawns model =? peer_spawns observed).
+Definition spawns_agree (model observed : list spawn) : bool := list_eqb sp_eqb model observed.
 
 Definition k_step (prev : mgr) (s : ostep) : bool :=
   let n := length (m_plens prev) in
@@ -119,7 +121,7 @@ Definition k_step (prev : mgr) (s : ostep) : bool :=
       end
   | OTresp ps =>
       let '(m', sp) := handle_tracker_resp prev (map (fun a => (a, [])) ps) in
-      mgr_eqb m' (s_state s) && (peer_spawns sp =? peer_spawns (s_sp s))
+      mgr_eqb m' (s_state s) && spawns_agree sp (s_sp s)
   | OChoose _ _ | OSkip => mgr_eqb prev (s_state s)
   | OTick | OSet => true
   end.
@@ -347,7 +349,7 @@ Fixpoint run (which : N) (prod : bool) (prev : mgr) (prev_rx : list (addr * opti
   | [] => (k, o)
   | s :: rest =>
       let k' := k && k_step prev s in
-      let o' := o && negb (bad_hash (s_res s)) &&
+      let o' := o && negb (bad_hash (s_res s)) && s_args_ok s &&
                      (if which =? 12 then (negb prod || o12_step prev prev_rx s)
                       else if which =? 13 then o13_step prev s
                       else if which =? 9 then o09_step prev s
@@ -398,7 +400,7 @@ Fixpoint run02 (prev : mgr) (tc : list (addr * bool)) (steps : list ostep) (k o 
                  | OSet => map (fun kp => (fst kp, p_choked (snd kp))) (m_peers (s_state s))
                  | _ => tc
                  end in
-      let o' := o && negb (bad_hash (s_res s)) && o02m_step prev tc' s in
+      let o' := o && negb (bad_hash (s_res s)) && s_args_ok s && o02m_step prev tc' s in
       match s_res s with
       | XPanic => (k', o')
       | _ => run02 (s_state s) tc' rest k' o'
